@@ -271,6 +271,34 @@ pub fn cause_class(e: &Error) -> String {
 
 pub type SubSlot = Arc<Mutex<Option<Subscription<Value>>>>;
 
+thread_local! {
+	/// front-end futures the driver keeps from being polled (a caller whose task does not get to run), with the waker to use
+	/// when they are let go (everything of a scenario runs on one thread)
+	static STARVED: std::cell::RefCell<BTreeMap<String, Option<std::task::Waker>>> = const { std::cell::RefCell::new(BTreeMap::new()) };
+}
+fn is_starved(h: &str, w: &std::task::Waker) -> bool {
+	STARVED.with(|s| match s.borrow_mut().get_mut(h) {
+		Some(slot) => {
+			*slot = Some(w.clone());
+			true
+		}
+		None => false,
+	})
+}
+/// from now on the future of operation `h` is not polled ...
+pub fn starve(h: &str) {
+	STARVED.with(|s| {
+		s.borrow_mut().entry(h.to_string()).or_insert(None);
+	});
+}
+/// ... until it is let go again (all of them)
+pub fn unstarve_all() {
+	let ws: Vec<Option<std::task::Waker>> = STARVED.with(|s| std::mem::take(&mut *s.borrow_mut()).into_values().collect());
+	for w in ws.into_iter().flatten() {
+		w.wake();
+	}
+}
+
 /// start one front-end operation as its own task; logs FeStart before and FeDone after
 pub fn start_op(rig: &Rig, h: &str, kind: &str, n: usize, slots: &BTreeMap<String, SubSlot>) -> tokio::task::JoinHandle<()> {
 	start_op_abandonable(rig, h, kind, n, slots).0
@@ -339,18 +367,26 @@ pub fn start_op_abandonable(
 		};
 		tracer.ev(json!({"ev": "FeDone", "h": hs, "res": res}));
 		});
+		// the caller's task may be kept from running for a while (`starve`): its future is simply not polled meanwhile
+		let h3 = h2.clone();
+		let mut gated = Box::pin(futures_util::future::poll_fn(move |cx| {
+			if is_starved(&h3, cx.waker()) {
+				return std::task::Poll::Pending;
+			}
+			fut.as_mut().poll(cx)
+		}));
 		let abandoned = tokio::select! {
 			biased;
 			r = &mut ab_rx => r.is_ok(),
-			_ = &mut fut => return,
+			_ = &mut gated => return,
 		};
 		if abandoned {
 			// no await between the decision and the drop: the log line and the drop are one step for every other task
-			drop(fut);
+			drop(gated);
 			t2.ev(json!({"ev": "FeAbandon", "h": h2}));
 		} else {
 			// the driver let go of the handle without using it
-			fut.await;
+			gated.await;
 		}
 	});
 	(jh, ab_tx)
